@@ -134,7 +134,12 @@ fn viol(report: &Report, site: &str, class: &str, replay: serde_json::Value, msg
 }
 
 fn counter_script(start: u8, n: usize) -> Vec<u8> {
-    (0..n).map(|i| start.wrapping_add(i as u8).wrapping_mul(3).wrapping_add(1)).collect()
+    let mut v: Vec<u8> = (0..n).map(|i| start.wrapping_add(i as u8).wrapping_mul(3).wrapping_add(1)).collect();
+    if n == 32 {
+        // as a 256-bit integer the answer stays below 2^255 < N: an ordinary private key under any range policy
+        v[31] &= 0x7F;
+    }
+    v
 }
 
 pub fn run(tier: Tier, seed: u64) -> i32 {
